@@ -59,12 +59,15 @@ package olric
 //@   props C15
 //@   trusted
 //@   ensures #empty: len(result) == 0
+//@   ensures #unshared: cap(result) == 0 || fresh(result)
 //@   modifies nothing
 
 //@ func (dp *DMapPipeline) addCommand(key string, cmd redis.Cmder) (uint64, int)
 //@   props C15
 //@   flag termination
 //@   requires #wired: dp != nil && dp.commands != nil && dp.dm != nil && dp.dm.clusterClient != nil && dp.dm.clusterClient.partitionCount > 0
+//@   requires #queues_are_separate: forall p uint64, q uint64 :: (p in dp.commands) && (q in dp.commands) && p != q && cap(dp.commands[p]) > 0 ==> base(dp.commands[p]) != base(dp.commands[q])
+//@   ensures #queues_stay_separate: forall p uint64, q uint64 :: (p in dp.commands) && (q in dp.commands) && p != q && cap(dp.commands[p]) > 0 ==> base(dp.commands[p]) != base(dp.commands[q])
 //@   ensures #slot [C15]: (result.0 in dp.commands) && 0 <= result.1 && result.1 == len(dp.commands[result.0]) - 1 && dp.commands[result.0][result.1] == cmd
 //@   ensures #earlier_slots_kept [C15]: forall p uint64, i int :: old(p in dp.commands) && 0 <= i && i < old(len(dp.commands[p])) ==>
 //@                (p in dp.commands) && i < len(dp.commands[p]) && dp.commands[p][i] == old(dp.commands[p][i])
